@@ -435,10 +435,73 @@ func (s *Sim) cfgClass() string {
 	if s.Cfg.Coroutines < len(BackgroundNames) {
 		parts = append(parts, "pool<5")
 	}
+	if s.Cfg.TaskBatch <= 3 {
+		parts = append(parts, "tb<=3")
+	}
 	if len(parts) == 0 {
 		return "sizes>=2"
 	}
 	return strings.Join(parts, ",")
+}
+
+// backlog measures the work the background coroutines still owe (0 = the
+// convergence predicate holds). Firing an occurrence may create an overdue
+// promise, so occurrences count twice.
+func (r *ruleState) backlog() int {
+	s := r.s
+	step := s.Cfg.SignalTimeoutMs
+	if step <= 0 {
+		step = 1
+	}
+	now := s.Now - 2*step
+	n := 0
+	if s.bgEnabled("TimeoutPromises") {
+		for _, p := range s.Last.Promises {
+			if p.State == 1 && p.Timeout <= now && (p.CreatedOn == nil || *p.CreatedOn <= now) {
+				n++
+			}
+		}
+	}
+	if s.bgEnabled("TimeoutLocks") {
+		for _, l := range s.Last.Locks {
+			if l.ExpiresAt <= now {
+				n++
+			}
+		}
+	}
+	if s.bgEnabled("SchedulePromises") {
+		for _, sc := range s.Last.Schedules {
+			per := schedulePeriod(sc)
+			if per <= 0 || per <= 2*step || sc.NextRunTime > now {
+				continue
+			}
+			n += 2 * (int((now-sc.NextRunTime)/per) + 1)
+		}
+	}
+	if s.bgEnabled("TimeoutTasks") {
+		for _, t := range s.Last.Tasks {
+			if (t.State == 2 || t.State == 4) && (t.ExpiresAt <= now || t.Timeout <= now) {
+				n++
+			}
+		}
+	}
+	if s.bgEnabled("EnqueueTasks") && s.bgEnabled("TimeoutTasks") {
+		for root := range r.q0roots {
+			if r.rootMoved[root] {
+				continue
+			}
+			for _, t := range s.Last.Tasks {
+				if t.RootPromiseId == root && t.State == 1 && t.Timeout > s.Now {
+					n++
+					break
+				}
+			}
+		}
+	}
+	if s.pendingWork() {
+		n++
+	}
+	return n
 }
 
 func (r *ruleState) onQuiesceEnd(rounds int) {
